@@ -317,6 +317,7 @@ class Interp:
         self.max_depth = 400
         self.ext_consts = {}
         self.const_generic_defaults = {}
+        self.assoc_types = {}
 
     # ------------------------------------------------------------------ solver
     def _sync(self, pc):
@@ -1384,6 +1385,7 @@ class Interp:
         """-> (fn name, tenv) | model callable | None"""
         tname = last_seg(trait[1])
         targs = trait[2]
+        self_ty = self.normalize_proj(self_ty)
         head = strip_refs(self_ty)
         # trait objects: dispatch on the concrete value behind the receiver
         if head[0] == 'opaque' and head[1].startswith('dyn ') and args:
@@ -1454,6 +1456,16 @@ class Interp:
             prov = self.provided_method(info.trait, method)
             if prov:
                 return prov, self.bind_provided(prov, self_ty, targs, gargs, ctx)
+            # std::cmp::PartialEq::ne is !eq unless overridden
+            if tname == 'PartialEq' and method == 'ne' and 'eq' in info.methods:
+                name = self.pick_dup(info, 'eq', b, head, targs)
+                b2 = dict(b)
+                b2['Self'] = self_ty
+
+                def ne(it, ctx_, a, s, name=name, b2=b2):
+                    for s2, r in it.invoke(name, list(a), s, b2, ctx_.fr.depth + 1):
+                        yield s2, (r if is_abnormal(r) else z3.Not(r))
+                return ne
             # serde::de::Visitor's documented defaults: owned / borrowed forms forward to the borrowed-slice form
             fwd = {'visit_string': 'visit_str', 'visit_borrowed_str': 'visit_str', 'visit_byte_buf': 'visit_bytes', 'visit_borrowed_bytes': 'visit_bytes'}
             if tname == 'Visitor' and method in fwd and fwd[method] in info.methods:
@@ -1479,6 +1491,35 @@ class Interp:
             if prov and any(last_seg(i.trait or '') == tname and unify(i.self_ty, head, set(i.gens), {}) for i in self.p.impls):
                 return prov, self.bind_provided(prov, self_ty, targs, gargs, ctx)
         return None
+
+    def normalize_proj(self, t):
+        """<X as Trait>::Assoc  ->  the type the impl (or the harness table `assoc_types`) assigns"""
+        if t is None or t[0] == 'opaque':
+            return t
+        if t[0] == 'ref':
+            return ('ref', t[1], self.normalize_proj(t[2]))
+        if t[0] != 'proj':
+            return t
+        sty, tr = self.normalize_proj(t[2][0]), t[2][1]
+        key = (last_seg(strip_refs(sty)[1]) if strip_refs(sty)[0] == 'path' else strip_refs(sty)[0], last_seg(tr[1]) if tr else None, t[1])
+        if key in self.assoc_types:
+            return self.assoc_types[key]
+        # repository impl: read `type Assoc = ..;` from the impl block
+        for info in self.p.impls:
+            if info.trait is None or tr is None or last_seg(info.trait) != last_seg(tr[1]):
+                continue
+            b = {}
+            if not unify(info.self_ty, strip_refs(sty), set(info.gens), b) and not unify(info.self_ty, sty, set(info.gens), b):
+                continue
+            raw, lines = self.p.src.read(info.src)
+            for k in range(info.span[1] - 1, min(len(lines), info.span[1] + 400)):
+                m = re.search(r'\btype\s+' + re.escape(t[1]) + r'\s*=\s*(.+?);', lines[k])
+                if m:
+                    tt = self.p._qualify(ty_parse(m.group(1)), info.module, set(info.gens))
+                    return subst(tt, b)
+                if k > info.span[1] and re.match(r'^\}', lines[k]):
+                    break
+        raise Unsupported(f'associated type {ty_str(t)} cannot be normalised')
 
     def provided_method(self, trait_path, method):
         cands = self.p.provided.get(last_seg(trait_path) + '::' + method, [])
